@@ -32,11 +32,11 @@ theorem args_unchanged [One P] [Mul P] (B : Backend Q P) (cfg : Cfg) (hcopy : cf
 example (w0 : World Q P) (h : w0.sim = none) : SimOwn w0.heap.size w0 := by
   intro s r hs; rw [h] at hs; cases hs
 
-/-- **fresh_equivalent (simulator).** For every history `h` and every `run`/`run_statistics` call on a caller-owned
+/-- **fresh_equivalent (simulator), any call, given the generator's state.** For every history `h` and every `run`/`run_statistics` call on a caller-owned
 list (or none): the value returned after `h` equals the value returned by a freshly constructed simulator
 (`sim = none`) given the same lists and the same state of the random generator.  `initialize` overwrites every
 per-run attribute (`initRun_fresh`), so nothing of `h` is read. -/
-theorem fresh_equivalent [One P] [Mul P] (B : Backend Q P) (cfg : Cfg) (hcopy : cfg.copyCbits = true) (mode : Mode)
+theorem fresh_equivalent_rng [One P] [Mul P] (B : Backend Q P) (cfg : Cfg) (hcopy : cfg.copyCbits = true) (mode : Mode)
     (c : Circuit) (phases : List Int) (w0 : World Q P) (hsim : SimOwn w0.heap.size w0) (h : List (Call Q))
     (hok : HistOk B cfg mode c phases w0 h) (call : Call Q)
     (hcall : (∃ st cb mr, call = .run st cb mr) ∨ (∃ st cb, call = .stat st cb))
@@ -66,10 +66,10 @@ theorem fresh_equivalent [One P] [Mul P] (B : Backend Q P) (cfg : Cfg) (hcopy : 
     rw [stat_value B cfg mode c phases wh st cb (Or.inl hcopy) hcb1,
       stat_value B cfg mode c phases wf st cb (Or.inl hcopy) hcb2, hsame cb hcb]
 
-/-- **repeat_equal.** The value a `run`/`run_statistics` call returns is a function of the VALUES of its arguments
+/-- **repeat_equal, any call, given the generator's state.** The value a `run`/`run_statistics` call returns is a function of the VALUES of its arguments
 and of the random generator's state: calling it again on the same objects (in the world left by the first call,
 with the generator put back) returns an equal value. -/
-theorem repeat_equal [One P] [Mul P] (B : Backend Q P) (cfg : Cfg) (hcopy : cfg.copyCbits = true) (mode : Mode)
+theorem repeat_equal_rng [One P] [Mul P] (B : Backend Q P) (cfg : Cfg) (hcopy : cfg.copyCbits = true) (mode : Mode)
     (c : Circuit) (phases : List Int) (w : World Q P) (hsim : SimOwn w.heap.size w) (call : Call Q)
     (hcall : (∃ st cb mr, call = .run st cb mr) ∨ (∃ st cb, call = .stat st cb))
     (hcb : ∀ r : Nat, call.cb = some r → r < w.heap.size) :
@@ -98,6 +98,92 @@ theorem repeat_equal [One P] [Mul P] (B : Backend Q P) (cfg : Cfg) (hcopy : cfg.
     have hcb2 : CbOk w cb := fun r hr => hcb r hr
     rw [stat_value B cfg mode c phases w1' st cb (Or.inl hcopy) hcb1,
       stat_value B cfg mode c phases w st cb (Or.inl hcopy) hcb2, hsame cb hcb]
+
+/-- **fresh_equivalent.** For every history `h` and every deterministic call (`run_statistics`; `run` with
+prescribed outcomes, in density-matrix mode, or on a circuit without measurement) on a caller-owned list or none:
+the value returned after `h` equals the value returned by a freshly constructed simulator given the same lists —
+whatever the state of the random generator, which such calls never read. -/
+theorem fresh_equivalent [One P] [Mul P] (B : Backend Q P) (cfg : Cfg) (hcopy : cfg.copyCbits = true) (mode : Mode)
+    (c : Circuit) (phases : List Int) (w0 : World Q P) (hsim : SimOwn w0.heap.size w0) (h : List (Call Q))
+    (hok : HistOk B cfg mode c phases w0 h) (call : Call Q) (hdet : CallDet mode c call)
+    (hcb : ∀ r : Nat, call.cb = some r → r < w0.heap.size) :
+    let wh := execAll B cfg mode c phases w0 h
+    let wf : World Q P := { w0 with sim := none }
+    (exec B cfg mode c phases wh call).2.val (exec B cfg mode c phases wh call).1.heap =
+      (exec B cfg mode c phases wf call).2.val (exec B cfg mode c phases wf call).1.heap := by
+  intro wh wf
+  have hinv0 : Inv w0.heap.cells w0 := ⟨⟨[], by simp⟩, hsim⟩
+  have hinv := execAll_inv B cfg hcopy mode c phases w0.heap.cells h w0 hinv0 hok
+  have hsame : ∀ cb : Option Ref, (∀ r : Nat, cb = some r → r < w0.heap.size) →
+      cb.map wh.heap.get = cb.map wf.heap.get := by
+    intro cb hc
+    cases cb with
+    | none => rfl
+    | some r =>
+      simp only [Option.map_some, Option.some.injEq]
+      rw [inv_get hinv r (hc r rfl)]
+      simp [Heap.get, wf]
+  have hsz : w0.heap.size ≤ wh.heap.size := hinv.size_ge
+  cases call with
+  | run st cb mr =>
+    rw [run_value B cfg mode c phases wh st cb mr (Or.inl hcopy),
+      run_value B cfg mode c phases wf st cb mr (Or.inl hcopy), hsame cb hcb]
+    exact runV_det B cfg mode c _ st mr _ _ hdet
+  | stat st cb =>
+    have hcb1 : CbOk wh cb := fun r hr => Nat.lt_of_lt_of_le (hcb r hr) hsz
+    have hcb2 : CbOk wf cb := fun r hr => hcb r hr
+    rw [stat_value B cfg mode c phases wh st cb (Or.inl hcopy) hcb1,
+      stat_value B cfg mode c phases wf st cb (Or.inl hcopy) hcb2, hsame cb hcb]
+    exact statV_det B cfg mode c _ st _ _
+  | init _ _ _ => cases hdet
+  | step => cases hdet
+  | getState => cases hdet
+  | query => cases hdet
+  | compile _ _ => cases hdet
+  | load _ _ => cases hdet
+
+/-- **repeat_equal.** Repeating a deterministic call on the same objects — in the world the first call left
+behind — returns an equal value. -/
+theorem repeat_equal [One P] [Mul P] (B : Backend Q P) (cfg : Cfg) (hcopy : cfg.copyCbits = true) (mode : Mode)
+    (c : Circuit) (phases : List Int) (w : World Q P) (hsim : SimOwn w.heap.size w) (call : Call Q)
+    (hdet : CallDet mode c call) (hcb : ∀ r : Nat, call.cb = some r → r < w.heap.size) :
+    let w1 := (exec B cfg mode c phases w call).1
+    (exec B cfg mode c phases w1 call).2.val (exec B cfg mode c phases w1 call).1.heap =
+      (exec B cfg mode c phases w call).2.val (exec B cfg mode c phases w call).1.heap := by
+  intro w1
+  have hinv0 : Inv w.heap.cells w := ⟨⟨[], by simp⟩, hsim⟩
+  have hinv : Inv w.heap.cells w1 := exec_inv B cfg hcopy mode c phases w.heap.cells w call hinv0 hcb
+  have hsz : w.heap.size ≤ w1.heap.size := hinv.size_ge
+  have hsame : ∀ cb : Option Ref, (∀ r : Nat, cb = some r → r < w.heap.size) →
+      cb.map w1.heap.get = cb.map w.heap.get := by
+    intro cb hc
+    cases cb with
+    | none => rfl
+    | some r =>
+      simp only [Option.map_some, Option.some.injEq]
+      rw [inv_get hinv r (hc r rfl)]
+      simp [Heap.get]
+  cases call with
+  | run st cb mr =>
+    rw [run_value B cfg mode c phases w1 st cb mr (Or.inl hcopy),
+      run_value B cfg mode c phases w st cb mr (Or.inl hcopy), hsame cb hcb]
+    exact runV_det B cfg mode c _ st mr _ _ hdet
+  | stat st cb =>
+    have hcb1 : CbOk w1 cb := fun r hr => Nat.lt_of_lt_of_le (hcb r hr) hsz
+    have hcb2 : CbOk w cb := fun r hr => hcb r hr
+    rw [stat_value B cfg mode c phases w1 st cb (Or.inl hcopy) hcb1,
+      stat_value B cfg mode c phases w st cb (Or.inl hcopy) hcb2, hsame cb hcb]
+    exact statV_det B cfg mode c _ st _ _
+  | init _ _ _ => cases hdet
+  | step => cases hdet
+  | getState => cases hdet
+  | query => cases hdet
+  | compile _ _ => cases hdet
+  | load _ _ => cases hdet
+
+-- non-vacuity: a `run_statistics` call and a `run` with prescribed outcomes are deterministic calls
+example (c : Circuit) (st : Q) : CallDet (Q := Q) .sv c (.stat st none) ∧ CallDet (Q := Q) .sv c (.run st none (some [1])) :=
+  ⟨trivial, Or.inr (Or.inl rfl)⟩
 
 /-- **no_alias.** In any history, the list objects that the returned results refer to (one per `run`, one per
 surviving record of `run_statistics`) are pairwise different — within one result and across results of different
